@@ -91,7 +91,8 @@ CLAIMED = {
             "and every DIMACS file captured from approx_model_count is judged by TLC against Count(c, A) computed from "
             "truth-table sets (all-bits for cyclic circuits and for the captured clauses).", "6 C08"),
     "C12": ("MCDepth: the as-built recursive depth visit returns the longest path for every DAG shape on <= 5 nodes, every "
-            "start node and every visiting order; every query result of the real code on all 4-node digraphs, all 5-node DAG "
+            "start node and every visiting order; MCPaths: the networkx simple-path search behind Circuit.paths as a machine yields "
+            "exactly the simple paths within the cutoff on every 4-node digraph (beyond the statement, drift only); every query result of the real code on all 4-node digraphs, all 5-node DAG "
             "shapes, 6-node DAG shapes and random typed DAGs is judged by TLC against the definitions of CGGraph.", "6 C12"),
     "C01": ("MCTseitin: the as-built Tseitin encoder model is exact for every G1 gate (all types, fan-in 1..4, constants, "
             "nested gate) and parity pairs under every fan-in iteration order; every recorded sat.cnf clause list and "
